@@ -6,7 +6,7 @@ use std::io::Read;
 use std::panic::{catch_unwind, AssertUnwindSafe};
 
 use serde_json::{json, Value};
-use vaporetto::{CharacterBoundary, CharacterType, Model, Predictor, Sentence, SolverType, Trainer, WordWeightRecord};
+use vaporetto::{CharacterBoundary, CharacterType, KyteaModel, Model, Predictor, Sentence, SolverType, Trainer, WordWeightRecord};
 use vaporetto_rules::{
     sentence_filters::{
         ConcatGraphemeClustersFilter, KyteaWsConstFilter, PatternMatchTagger, SplitLinebreaksFilter,
@@ -353,6 +353,36 @@ fn main() {
                     }
                     Err(e) => json!({"err": format!("train: {e}"), "n_features": nfeat}),
                 }
+            }),
+            "kytea_convert" => guard(|| {
+                let bytes = u8s(&op["bytes"]);
+                let km = match KyteaModel::read(&mut &bytes[..]) {
+                    Ok(m) => m,
+                    Err(e) => return json!({"err": format!("read: {e}")}),
+                };
+                match Model::try_from(km) {
+                    Ok(m) => {
+                        let b = m.to_vec().unwrap();
+                        let j = model_to_json(&b);
+                        models.insert(s(&op["id"]), b);
+                        json!({"ok": true, "model": j})
+                    }
+                    Err(e) => json!({"err": format!("convert: {e}")}),
+                }
+            }),
+            "kytea_prefix_scan" => guard(|| {
+                let bytes = u8s(&op["bytes"]);
+                let mut bad = vec![];
+                for cut in 0..bytes.len() {
+                    let pre = &bytes[..cut];
+                    match catch_unwind(AssertUnwindSafe(|| KyteaModel::read(&mut &pre[..]).is_ok())) {
+                        Ok(false) => {}
+                        Ok(true) => bad.push(json!([cut, "read accepted a truncated file"])),
+                        Err(_) => bad.push(json!([cut, "read panicked"])),
+                    }
+                }
+                bad.truncate(20);
+                json!({"len": bytes.len(), "bad": bad})
             }),
             "model_json" => guard(|| model_to_json(&models.get(&s(&op["model"])).cloned().unwrap_or_default())),
             "model_dump" => json!({"ok": true, "bytes": models.get(&s(&op["model"])).cloned().unwrap_or_default()}),
